@@ -105,6 +105,22 @@ def run_shard(spec):
             sem = J.judge_semantics(dv, op, r, base_key=dict(base))
             if sem:
                 B.bump(obs, "skipped_semantic_failure")
+                # ... except the plainest locality failure: a successful rm that leaves the
+                # addressed binding in place and removes another written binding instead
+                if op.kind == "rm" and r.out is not None and r.exc_type is None:
+                    dvo = A.decode(r.out)
+                    if not dvo.error and dvo.target is not None:
+                        def written(d):
+                            return [tuple(b.path) for b in d.target.bindings if b.kind == "bind" and b.path]
+                        win, wout = written(dv), written(dvo)
+                        lost = [p_ for p_ in win if p_ not in wout and list(p_) != list(segs)]
+                        if tuple(segs) in wout and lost:
+                            k = dict(base)
+                            k["effect"] = "another-binding-removed"
+                            k["lost_written"] = "dotted" if len(lost[0]) > 1 else "plain"
+                            B.record(res, k, {"text": before, "op": [op.kind, op.npath, op.value],
+                                              "history": hist[:-1], "canonical": canonical and si == 0},
+                                     f"lost={lost[:3]!r} OUT={r.out!r}")
                 break
             keys = L.judge_tokens(dv, op, r, pred, segs, base)
             obs["judged_token_level"] += 1
